@@ -2,6 +2,7 @@ package main
 
 import (
 	"bufio"
+	"bytes"
 	"encoding/json"
 	"fmt"
 	"os"
@@ -33,6 +34,7 @@ func (w *writer) emit(ev any) {
 	if err != nil {
 		fatal(err)
 	}
+	b = bytes.ReplaceAll(b, []byte(":null"), []byte(":[]")) // nil slices: TLC's Json module rejects null
 	w.w.Write(b)
 	w.w.WriteByte('\n')
 	w.n++
